@@ -496,6 +496,35 @@ def call_builtin(ex, name, args, kwargs, node):
       return VPy('emptydict')
     if len(args) == 1 and isinstance(args[0], VList):
       return VObj(sym.ufun('dict_of_items', sym.Val, sym.Val)(sym.to_val(args[0])))
+    from pyvc.exec import Iter
+    if len(args) == 1 and isinstance(args[0], Iter) and not kwargs:
+      # dict(iterable of pairs): a key is present iff some pair has it; its value is that of
+      # the LAST such pair  [assumed Python semantics, see tools/axiom_conformance.py]
+      it = args[0]
+      j = z3.Int(ex.path.fresh_name('j!dz'))
+      pair = it.at(j)
+      if not (isinstance(pair, VTuple) and len(pair.items) == 2):
+        raise OutOfSubset('dict() of an iterable whose items are not pairs', node)
+      kw, vw = pair.items
+      kk, vk = kind_of(kw), kind_of(vw)
+      dk = KDict(kk, vk)
+      keyf = ex.path.define('dz_key', [j], kk.box(kw))
+      valf = ex.path.define('dz_val', [j], vk.box(vw))
+      n = it.len
+      dom = ex.path.fresh_const('dz_dom', z3.ArraySort(kk.sort(), sym.BoolS))
+      val = ex.path.fresh_const('dz_map', z3.ArraySort(kk.sort(), vk.sort()))
+      k = z3.Const('k!dz', kk.sort())
+      i2 = z3.Int('i2!dz')
+      ex.path.assume(sym.forall([k], z3.Select(dom, k) == z3.Exists(
+          [i2], z3.And(0 <= i2, i2 < n, keyf(i2) == k)), patterns=[z3.Select(dom, k)]))
+      ex.path.assume(sym.forall([j], z3.Implies(z3.And(0 <= j, j < n), z3.Select(dom, keyf(j))),
+                                patterns=[keyf(j)]))
+      ex.path.assume(sym.forall([j], z3.Implies(
+          z3.And(0 <= j, j < n, sym.forall([i2], z3.Implies(z3.And(j < i2, i2 < n),
+                                                           keyf(i2) != keyf(j)),
+                                          patterns=[keyf(i2)])),
+          z3.Select(val, keyf(j)) == valf(j)), patterns=[valf(j)]))
+      return VDict(dk, dom, val)
   if name == 'set':
     if not args:
       return VPy('emptyset')
